@@ -155,6 +155,25 @@ def run(ck):
                     got = o["norm"].term.syms() if o["norm"].term is not None else None
                     ck.check(None if got is None else got == am | {"space"}, "C01.R6", inst + ":normalization deps [%s]" % path_tag(p), prog.method(cls, "normalization").site(),
                              "normalization depends on %s; expected exactly %s" % (sorted(got or []), sorted(am | {"space"})))
+    # ------------------------------------------------------------------ R8 history independence (two-call protocol)
+    from .history import check_history
+
+    for cls in WF:
+        for mname, mk in (
+            ("psi", lambda it, c: call(it, c[0], "psi", c[1])),
+            ("amplitude", lambda it, c: call(it, c[0], "amplitude", c[1])),
+            ("phase", lambda it, c: call(it, c[0], "phase", c[1])),
+            ("probability", lambda it, c: call(it, c[0], "probability", c[1], Z())),
+            ("normalization", lambda it, c: call(it, c[0], "normalization", c[1])),
+            ("compute_normalization", lambda it, c: call(it, c[0], "compute_normalization", c[1])),
+        ):
+            def make(it, cls=cls, mname=mname):
+                s = make_state(it, cls)
+                x = tens(it, "space", ("N", "nv")) if "normalization" in mname else tens(it, "v", ("B", "nv"))
+                return (s, x)
+
+            check_history(ck, "C01.R8", "%s.%s" % (cls, mname), prog.method(cls, mname).site(), make, mk)
+    ck.require_min("C01.R8", 12)
     ck.require_min("C01.R1", 16)
     ck.require_min("C01.R2", 8)
     ck.require_min("C01.R3", 2)
